@@ -673,6 +673,7 @@ Proof.
   - inv H. apply (inv_stutter (abs s)); auto.
   - inv H. apply (inv_stutter (abs s)); auto.
   - inv H. apply (inv_stutter (abs s)); auto.
+  - inv H. apply (inv_stutter (abs s)); auto.
 Qed.
 
 Lemma init_inv c0 s0 f0 : AInv (abs (init c0 s0 f0)).
@@ -955,6 +956,7 @@ Proof.
   - inv H. cbn. lia.
   - inv H. cbn. lia.
   - inv H. cbn. lia.
+  - inv H. cbn. lia.
 Qed.
 
 (** a worker's blocking call (the issuer) can always be ended by cancellation: at any time for a
@@ -998,6 +1000,7 @@ Proof.
   - apply guard_some in H as [G H]. inv H. cbn. rewrite upd_other; [assumption|].
     intros ->. rewrite Ht in G. discriminate.
   - apply guard_some in H as [G H]. inv H. assumption.
+  - inv H. assumption.
   - inv H. assumption.
   - inv H. assumption.
   - inv H. assumption.
@@ -1266,6 +1269,7 @@ Proof.
   - inv H. exact W.
   - inv H. exact W.
   - inv H. exact W.
+  - inv H. exact W.
 Qed.
 
 Lemma winv_run ls : forall s s', WInv s -> run s ls = Some s' -> WInv s'.
@@ -1367,6 +1371,18 @@ Proof.
   intros P Ex. destruct (lookup_prefers_unexpired _ Ex) as (y & L & E).
   unfold thread_step. cbv beta zeta. rewrite P, L.
   eexists. exists y. split; [reflexivity|]. cbn. rewrite upd_same. split; [reflexivity|exact E].
+Qed.
+
+(** * 10c. The issuer is asked once per renewal: a renewal worker that finds the bundle in storage
+    no longer due (it has been renewed meanwhile: by a worker that finished just before, or by another
+    instance) and whose own certificate is not revoked goes on to the reload; no issuer step *)
+Theorem renewal_not_repeated s t th ch c bg st s0 b :
+  t_pc th = PRenLoad ch c bg st -> store s (t_name th) = Some s0 ->
+  needs_renew s0 = false -> revoked c = false ->
+  (forall o, thread_step s t th (AIssue o) = None) /\
+  thread_step s t th (AStep b) = Some (set_thr s t (set_pc th (PRenReload ch c bg))).
+Proof.
+  intros P St N R. unfold thread_step. cbv beta zeta. rewrite P, St, N, R. cbn. split; [intros o|]; reflexivity.
 Qed.
 
 (** * The statement shapes of the source the LTS was written against (translator item
